@@ -78,7 +78,7 @@ def worker(ctx, job):
     install_fiat_contracts()
     for seed, fi in job["items"]:
         rng = random.Random(seed)
-        prog = gen.gen_program(rng, gen.feat(**FEATS[fi]))
+        prog = gen.gen_program(rng, gen.pickfeat(FEATS, fi))
         text = P.render(prog)
         del FIATLOG[:]
         res = runner.run_text(text, maxticks=prog["ticks"] + 14, post=True)
@@ -163,8 +163,8 @@ def worker(ctx, job):
 
 
 def run(ctx):
-    n = ctx.pick(400, 6000)
-    items = [(ctx.rng.randrange(1 << 30), i % len(FEATS)) for i in range(n)]
+    n = ctx.pick(400, 24000)
+    items = [(ctx.rng.randrange(1 << 30), i % gen.nfeats(FEATS, ctx)) for i in range(n)]
     ctx.shard([{"items": items[i::16]} for i in range(16)], timeout=ctx.pick(300, 1500))
     for k in ("stop", "start", "run", "abort", "ready"):
         ctx.floor("bid_" + k, 10)
